@@ -110,21 +110,42 @@ func c10GenProfile(r *Rng) *profile.Profile {
 	return p
 }
 
-// c10SourceFiles: deterministic source text for every file name a profile mentions.
-func c10SourceFiles(p *profile.Profile) map[string]string {
+// c10SourceTrees: the scratch source trees of a case, relative to the case directory. The profile's file
+// names are absolute ("/src/app/main.go"); pprof finds sources by (a) trim_path, or (b) the heuristic
+// "strip everything up to /<basename of a source_path directory>/", or (c) joining source_path with the
+// full name. Every tree below therefore yields DIFFERENT trimmed file names and different file contents:
+//   srcroot/src/<pkg>/<file>   found through (c) with source_path=../srcroot, names untrimmed
+//   trees/a/src/<pkg>/<file>   basename "src"  → names become <pkg>/<file>
+//   trees/b/app/<file>         basename "app"  → only /src/app/… names become <file>
+//   trees/c/lib/<file>         basename "lib"  → only /src/lib/… names become <file>
+func c10SourceTrees(p *profile.Profile) map[string]string {
 	out := map[string]string{}
-	for _, f := range p.Function {
-		if _, ok := out[f.Filename]; ok || f.Filename == "" {
-			continue
-		}
+	text := func(tree, name string) string {
 		var b bytes.Buffer
 		for i := 1; i <= 60; i++ {
-			fmt.Fprintf(&b, "// %s line %d\n", f.Filename, i)
+			fmt.Fprintf(&b, "// tree %s: %s line %d\n", tree, name, i)
 		}
-		out[f.Filename] = b.String()
+		return b.String()
+	}
+	for _, f := range p.Function {
+		n := f.Filename
+		if n == "" || !strings.HasPrefix(n, "/src/") {
+			continue
+		}
+		out["srcroot"+n] = text("root", n)
+		out["trees/a"+n] = text("a", n)
+		if strings.HasPrefix(n, "/src/app/") {
+			out["trees/b/app/"+strings.TrimPrefix(n, "/src/app/")] = text("b", n)
+		}
+		if strings.HasPrefix(n, "/src/lib/") {
+			out["trees/c/lib/"+strings.TrimPrefix(n, "/src/lib/")] = text("c", n)
+		}
 	}
 	return out
 }
+
+var c10SourcePaths = []string{"../trees/a/src", "../trees/b/app", "../trees/c/lib", "../srcroot", "../trees/b/app:../trees/c/lib", "../trees/c/lib:../trees/a/src", "", "/nonexistent"}
+var c10TrimPaths = []string{"", "", "/src", "/src/app", "/src/lib", "/zzz"}
 
 // ---- script generator ----
 
@@ -140,7 +161,7 @@ var c10TagExprs = []string{"req=a", "a", "b|c", "bytes=1kb:", "tenant", "512b:2k
 var c10TagKeys = []string{"req", "tenant", "req,tenant", "bytes", "nokey"}
 var c10Floats = []string{"0", "0.1", "0.25", "0.005", "1", "2", "0.5", "1e-3", "10", ".05", "abc", "1.5"}
 var c10Bools = []string{"true", "false", "1", "0", "yes", "no", "t", "f", "Y", "N", "", "maybe", "TRUE", "False"}
-var c10BoolOpts = []string{"call_tree", "relative_percentages", "drop_negative", "noinlines", "showcolumns", "trim", "mean", "compact_labels", "intel_syntax"}
+var c10BoolOpts = []string{"call_tree", "relative_percentages", "drop_negative", "noinlines", "showcolumns", "trim", "mean", "compact_labels", "intel_syntax", "normalize"}
 var c10RegexOpts = []string{"focus", "ignore", "hide", "show", "show_from", "prune_from"}
 var c10Granularities = []string{"functions", "filefunctions", "files", "lines", "addresses"}
 var c10Units = []string{"minimum", "auto", "ms", "us", "s", "kb", "mb", "bytes", "seconds"}
@@ -216,9 +237,9 @@ func (r *Rng) c10Assign(types []string) c10Line {
 	case 14:
 		name = r.Pick([]string{"source_path", "trim_path"})
 		if name == "source_path" {
-			val = r.Pick([]string{"../srcroot", "../srcroot", "", "/nonexistent"})
+			val = r.Pick(c10SourcePaths)
 		} else {
-			val = r.Pick([]string{"/src", "/src/app", "", "/zzz"})
+			val = r.Pick(c10TrimPaths)
 		}
 	case 15:
 		// a field name that needs a value, given without one
@@ -325,6 +346,110 @@ func c10Script(r *Rng, types []string, n int) []c10Line {
 	return ls
 }
 
+// ---- toggle scripts: re-assign ONE option to different values between identical probes ----
+//
+// Every option that influences report content is listed with values that change the output for the
+// generated profiles. A toggle script is  setup… ; O=v1 ; P ; O=v2 ; P ; O=v1 ; P  (so both orders of every
+// pair occur) with noise lines in between; every P is probed against a fresh session that replays only the
+// assignments, so any process-wide cache keyed without O shows as a difference.
+
+type c10Toggle struct {
+	opt    string
+	values []string
+	probes []string // commands whose output depends on the option
+	setup  []string // assignments that make the dependence visible
+}
+
+func c10Toggles(types []string) []c10Toggle {
+	fileProbes := []string{"top", "tree", "dot", "list main|Alloc|Handle", "list .", "weblist main|Alloc >w.out", "peek Handle|Alloc", "text 40", "callgrind >cg.out", "traces"}
+	fileSetup := []string{"granularity=files", "granularity=lines", "granularity=filefunctions", "granularity=addresses", "lines=1"}
+	any := []string{"top", "tree", "peek .", "traces", "text 30 -cum", "dot", "tags", "raw", "topproto >tp.out", "proto >p.out", "callgrind >cg.out"}
+	t := []c10Toggle{
+		{"source_path", c10SourcePaths[:6], fileProbes, fileSetup},
+		{"trim_path", []string{"", "/src", "/src/app", "/src/lib"}, fileProbes, append([]string{"source_path=../trees/a/src", "source_path=../srcroot", "source_path=../trees/b/app"}, fileSetup...)},
+		{"unit", c10Units, []string{"top", "tree", "peek .", "traces", "tags", "dot", "list ."}, nil},
+		{"divide_by", []string{"1", "2", "0.5", "10"}, any, nil},
+		{"tagroot", []string{"req", "tenant", "req,tenant", "bytes", ""}, any, nil},
+		{"tagleaf", []string{"req", "tenant", "tenant,req", "latency", ""}, any, nil},
+		{"showcolumns", []string{"true", "false"}, []string{"top", "tree", "list .", "peek .", "traces", "dot"}, []string{"granularity=lines", "granularity=addresses"}},
+		{"noinlines", []string{"true", "false"}, any, []string{"granularity=lines", "granularity=functions", ""}},
+		{"call_tree", []string{"true", "false"}, []string{"tree", "peek .", "top", "callgrind >cg.out"}, nil},
+		{"relative_percentages", []string{"true", "false"}, any, []string{"focus=lib|app", "ignore=runtime", "tagfocus=req=a"}},
+		{"drop_negative", []string{"true", "false"}, any, nil},
+		{"mean", []string{"true", "false"}, any, nil},
+		{"trim", []string{"true", "false"}, []string{"top", "tree", "dot", "peek ."}, []string{"nodefraction=0.1", "nodecount=3"}},
+		{"nodecount", []string{"2", "5", "-1", "0"}, []string{"top", "tree", "dot", "text"}, nil},
+		{"nodefraction", []string{"0", "0.1", "0.25", "0.005"}, []string{"top", "tree", "dot"}, nil},
+		{"edgefraction", []string{"0", "0.1", "0.5", "0.001"}, []string{"tree", "dot"}, nil},
+		{"granularity", c10Granularities, any, nil},
+		{"sort", []string{"cum", "flat"}, []string{"top", "text", "tree", "peek ."}, nil},
+		{"compact_labels", []string{"true", "false"}, []string{"top", "tree", "peek ."}, nil},
+		{"focus", c10Regexes, any, nil}, {"ignore", c10Regexes, any, nil}, {"hide", c10Regexes, any, nil},
+		{"show", c10Regexes, any, nil}, {"show_from", c10Regexes, any, nil}, {"prune_from", c10Regexes, any, nil},
+		{"tagfocus", c10TagExprs, any, nil}, {"tagignore", c10TagExprs, any, nil},
+		{"tagshow", []string{"req", "tenant", "bytes", "latency"}, []string{"tags", "traces", "raw", "proto >p.out"}, nil},
+		{"taghide", []string{"req", "tenant", "bytes", "latency"}, []string{"tags", "traces", "raw", "proto >p.out"}, nil},
+		{"output", []string{"outA.txt", "outB.txt", ""}, any, nil},
+		{"intel_syntax", []string{"true", "false"}, []string{"disasm .", "weblist . >w.out"}, nil},
+	}
+	if len(types) > 1 {
+		t = append(t, c10Toggle{"sample_index", types, any, nil})
+	}
+	return t
+}
+
+func c10ToggleScript(r *Rng, types []string) ([]c10Line, string) {
+	ts := c10Toggles(types)
+	// path options are over-represented: their effect goes through more layers (name trimming, file lookup)
+	var tg c10Toggle
+	if r.Chance(40) {
+		tg = ts[r.Intn(2)]
+	} else {
+		tg = ts[r.Intn(len(ts))]
+	}
+	var ls []c10Line
+	asg := func(t string) { ls = append(ls, c10Line{Text: c10Pad(r, t), Intent: "assign"}) }
+	cmd := func(t string) { ls = append(ls, c10Line{Text: c10Pad(r, t), Intent: "command"}) }
+	for _, s := range tg.setup {
+		if s != "" && r.Chance(45) {
+			asg(s)
+		}
+	}
+	// one or two bystander options with output-changing values
+	for i, n := 0, r.Intn(3); i < n; i++ {
+		o := ts[r.Intn(len(ts))]
+		if o.opt != tg.opt {
+			asg(o.opt + "=" + r.Pick(o.values))
+		}
+	}
+	probe := r.Pick(tg.probes)
+	probe2 := r.Pick(tg.probes)
+	nfile := 100
+	vals := append([]string{}, tg.values...)
+	for i := len(vals) - 1; i > 0; i-- { // shuffle
+		j := r.Intn(i + 1)
+		vals[i], vals[j] = vals[j], vals[i]
+	}
+	if len(vals) > 3 {
+		vals = vals[:3]
+	}
+	seq := append(append([]string{}, vals...), vals[0])
+	if len(vals) > 2 && r.Bool() {
+		seq = append(seq, vals[2], vals[1])
+	}
+	for _, v := range seq {
+		asg(tg.opt + "=" + v)
+		if r.Chance(25) {
+			ls = append(ls, r.c10Command(&nfile)) // noise: an unrelated report in between
+		}
+		cmd(probe)
+		if r.Chance(40) {
+			cmd(probe2)
+		}
+	}
+	return ls, tg.opt
+}
+
 // ---- web request generator ----
 
 var c10WebPaths = []string{"/top", "/top", "/peek", "/flamegraph", "/flamegraph", "/source", "/disasm", "/"}
@@ -356,7 +481,7 @@ func (r *Rng) c10WebRequest(types []string) string {
 		case 8:
 			q[r.Pick([]string{"nf", "ef"})] = r.Pick(c10Floats)
 		case 9:
-			q[r.Pick([]string{"trim", "calltree", "rel", "dropneg", "noinlines", "showcolumns", "mean", "compact"})] = r.Pick([]string{"t", "f", "true", "false", "maybe"})
+			q[r.Pick([]string{"trim", "calltree", "rel", "dropneg", "noinlines", "showcolumns", "mean", "compact", "intel"})] = r.Pick([]string{"t", "f", "true", "false", "maybe"})
 		case 10:
 			q["g"] = r.Pick(append([]string{"bad"}, c10Granularities...))
 		case 11:
